@@ -370,6 +370,13 @@ func (x *Exec) oblige(st *State, kind, what string, goal *Term, pos token.Pos, c
 	if goal.IsTrue() || st.dead {
 		return
 	}
+	if goal.Op == "and" && len(goal.Args) > 1 && kind != "safety" {
+		// one obligation per conjunct: smaller queries, and a failure names the conjunct
+		for i, g := range goal.Args {
+			x.oblige(st, kind, fmt.Sprintf("%s.%d", what, i+1), g, pos, cl)
+		}
+		return
+	}
 	if kind == "safety" && what == "overflow" && x.noOverflow {
 		return
 	}
